@@ -1,5 +1,7 @@
 // C19 driver: builds real error values through fmt.Errorf("%s: %w"),
-// errors.EmbedObject and status.Error, passes them through GRPCWrap, a status
+// errors.EmbedObject, status.Error and, for wrapping trees, fmt.Errorf with
+// several %w verbs, errors.Join and custom wrapper types (trees.go), with texts
+// and objects of up to 64 KB (1 MB in the thorough tier), passes them through GRPCWrap, a status
 // round trip (status.Convert(err).Err() plus the protobuf wire encoding) and
 // FromGRPCError, and writes every projected observable as a Coq case for
 // run/Run_C19.v.
@@ -92,15 +94,24 @@ var markerFree = []int{0, 1, 2, 3, 4, 5, 6, 7, 15, 16, 17, 18, 19, 20, 21, 22}
 // ---- case description (what --from reads back) ----
 
 type Leaf struct {
-	K string `json:"k"`           // "S" sentinel, "P" errors.New, "G" status.Error
-	C int    `json:"c,omitempty"` // class index (S) or code (G)
-	T string `json:"t,omitempty"` // message (P, G)
+	// "S" sentinel, "P" errors.New, "G" status.Error, "I" a custom comparable type whose Is method answers for
+	// the sentinel C, "Y" the syscall.Errno whose Is method answers for the sentinel C (ENOENT, EEXIST, EACCES)
+	K string `json:"k"`
+	C int    `json:"c,omitempty"` // class index (S, I, Y) or code (G)
+	T string `json:"t,omitempty"` // message (P, G, I)
+	N int    `json:"n,omitempty"` // the message is T followed by N times 'x' (P, G)
 }
 
 type Frame struct {
-	K string `json:"k"`           // "W" fmt.Errorf("%s: %w", T, e), "G" fmt.Errorf("%s%w", T, e), "E" EmbedObject(objects[O], e)
-	T string `json:"t,omitempty"` // text (W)
-	O int    `json:"o,omitempty"` // object index (E)
+	// "W" fmt.Errorf("%s: %w", T, e), "G" fmt.Errorf("%s%w", T, e), "E" EmbedObject(objects[O], e),
+	// "U" a custom type with Unwrap() error and the text T + ": " + e.Error(),
+	// layers with several operands (Ops, exactly one of them "H" = e): "M" fmt.Errorf with one %w per
+	// operand (T in front, Op.A behind each operand), "J" errors.Join, "V" a custom type with Unwrap() []error
+	K   string `json:"k"`
+	T   string `json:"t,omitempty"`   // text (W, G, U, M)
+	O   int    `json:"o,omitempty"`   // object index (E)
+	N   int    `json:"n,omitempty"`   // W, G, U: T is followed by N times 'x'; E: the object is Obj{A: O, B: N times 'y'}
+	Ops []Op   `json:"ops,omitempty"` // M, J, V
 }
 
 type Case struct {
@@ -136,7 +147,7 @@ func tokenize(s string) []string {
 			if n, ok := jsonName[seg]; ok {
 				toks = append(toks, "Json "+n)
 			} else {
-				toks = append(toks, "Text "+hx.Str(seg))
+				toks = append(toks, "Text "+coqBytes(seg))
 			}
 		}
 		if i < 0 {
@@ -153,26 +164,49 @@ func coqText(s string) string {
 	return "(" + hx.List(tokenize(s)) + ")"
 }
 
+// paddedText: the tokens of t followed by n times the pad byte (sent as rep)
+func paddedText(t string, n int) string {
+	if n == 0 {
+		return coqText(t)
+	}
+	return "(" + hx.List(append(tokenize(t), fmt.Sprintf("Text (rep %d%%N %d%%N)", padByte[0], n))) + ")"
+}
+
+func leafText(l Leaf) string {
+	switch l.K {
+	case "Y":
+		return errnoFor[l.C].Error()
+	}
+	return l.T + strings.Repeat(padByte, l.N)
+}
+
 func coqLeaf(l Leaf) string {
 	switch l.K {
 	case "S":
 		return "LSentinel " + classNames[l.C]
 	case "P":
-		return "LPlain " + coqText(l.T)
+		return "LPlain " + paddedText(l.T, l.N)
 	case "G":
-		return "LStatus " + codeNames[l.C] + " " + coqText(l.T)
+		return "LStatus " + codeNames[l.C] + " " + paddedText(l.T, l.N)
+	case "I", "Y":
+		return "LIsLeaf " + classNames[l.C] + " " + coqText(leafText(l))
 	}
 	panic("bad leaf " + l.K)
 }
 
-func coqFrame(f Frame) string {
+func coqFrame(f Frame, leaf Leaf) string {
 	switch f.K {
-	case "W":
-		return "FWrap " + coqText(f.T)
+	case "W", "U":
+		return "FWrap " + paddedText(f.T, f.N)
 	case "G":
-		return "FGlue " + coqText(f.T)
+		return "FGlue " + paddedText(f.T, f.N)
 	case "E":
+		if f.N > 0 {
+			return "FEmbed " + coqBytes(objJSON(frameObj(f)))
+		}
 		return fmt.Sprintf("FEmbed O%d", f.O)
+	case "M", "J", "V":
+		return coqMulti(f, leaf)
 	}
 	panic("bad frame " + f.K)
 }
@@ -237,7 +271,7 @@ func (o Obs) coq() string {
 		if n, ok := jsonName[o.Ext]; ok {
 			ext = "(Some " + n + ")"
 		} else {
-			ext = "(Some " + hx.Str(o.Ext) + ")"
+			ext = "(Some " + coqBytes(o.Ext) + ")"
 		}
 	}
 	return fmt.Sprintf("(mkObs %s %s %s %s %s)", hx.Bool(o.Nil), hx.List(is), codeNames[o.Code], from, ext)
@@ -310,9 +344,13 @@ func buildLeaf(l Leaf) error {
 	case "S":
 		return classes[l.C]
 	case "P":
-		return fmt.Errorf("%s", l.T) // *fmt.wrapError is only produced by %w: this is a plain leaf
+		return fmt.Errorf("%s", leafText(l)) // *fmt.wrapError is only produced by %w: this is a plain leaf
 	case "G":
-		return status.Error(codes.Code(l.C), l.T)
+		return status.Error(codes.Code(l.C), leafText(l))
+	case "I":
+		return isErr{cls: classes[l.C], t: l.T}
+	case "Y":
+		return errnoFor[l.C]
 	}
 	panic("bad leaf")
 }
@@ -327,15 +365,46 @@ func build(c Case) (err error, ok bool) {
 	err = buildLeaf(c.Leaf)
 	for i := len(c.Frames) - 1; i >= 0; i-- {
 		f := c.Frames[i]
-		if f.K == "W" {
-			err = fmt.Errorf("%s: %w", f.T, err)
-		} else if f.K == "G" {
-			err = fmt.Errorf("%s%w", f.T, err)
-		} else {
-			err = ge.EmbedObject(objects[f.O], err)
+		switch f.K {
+		case "W":
+			err = fmt.Errorf("%s: %w", frameText(f), err)
+		case "G":
+			err = fmt.Errorf("%s%w", frameText(f), err)
+		case "U":
+			err = &opError{op: frameText(f), err: err}
+		case "E":
+			err = ge.EmbedObject(frameObj(f), err)
+		default:
+			err = buildMulti(f, err, c.Leaf)
 		}
 	}
 	return err, true
+}
+
+// validate stops the driver on a case description that cannot be built (a bug of the generator or a
+// hand-written replay file), so that it is not mistaken for an EmbedObject panic
+func validate(c Case) {
+	for _, f := range c.Frames {
+		switch f.K {
+		case "W", "G", "E", "U":
+		case "M", "J", "V":
+			holes := 0
+			for _, op := range f.Ops {
+				switch op.K {
+				case "H":
+					holes++
+				case "N", "eof", "new", "ctx", "wrap", "join", "same", "st", "cls":
+				default:
+					panic("bad operand " + op.K)
+				}
+			}
+			if holes != 1 {
+				panic("a frame with several operands needs exactly one H operand")
+			}
+		default:
+			panic("bad frame " + f.K)
+		}
+	}
 }
 
 func (r *runner) run(c Case) string {
@@ -343,20 +412,40 @@ func (r *runner) run(c Case) string {
 	s := r.s
 	frames := make([]string, len(c.Frames))
 	embeds := 0
+	long := 0
 	for i, f := range c.Frames {
-		frames[i] = coqFrame(f)
+		frames[i] = coqFrame(f, c.Leaf)
 		if f.K == "E" {
 			embeds++
 		}
+		if f.K == "M" || f.K == "J" || f.K == "V" || f.K == "U" {
+			s.Count("layer:" + f.K)
+		}
+		if f.N > long {
+			long = f.N
+		}
+	}
+	switch {
+	case long >= 100000:
+		s.Count("long:>=100K")
+	case long >= 10000:
+		s.Count("long:>=10K")
+	case long >= 4097:
+		s.Count("long:>4096")
+	case long >= 4000:
+		s.Count("long:4000..4096")
+	case long > 0:
+		s.Count("long:<4000")
 	}
 	s.Count("leaf:" + c.Leaf.K)
 	s.Count(fmt.Sprintf("depth:%d", len(c.Frames)))
 	s.Count(fmt.Sprintf("embeds:%d", embeds))
-	if c.Leaf.K == "S" {
+	if c.Leaf.K == "S" || c.Leaf.K == "I" || c.Leaf.K == "Y" {
 		s.Count("class:" + classNames[c.Leaf.C])
 	} else if c.Leaf.K == "G" {
 		s.Count("code:" + codeNames[c.Leaf.C])
 	}
+	validate(c)
 	head := fmt.Sprintf("mkCase %s %s CODED (%s) %s", hx.N(c.ID), hx.Bool(c.Exact), coqLeaf(c.Leaf), hx.List(frames))
 	nilObs := Obs{Nil: true, From: -1}.coq()
 	e, ok := build(c)
@@ -568,6 +657,157 @@ func main() {
 			}
 		}
 	}
+	// 1d. leaves of another type whose Is method answers for a class (a custom type for every class, three
+	// syscall.Errno values), bare and wrapped (compared with the model in the exact mode)
+	for _, l := range isLeaves() {
+		for _, sh := range [][]string{{}, {"W"}, {"W", "W"}, {"E"}, {"W", "E", "W"}, {"G"}} {
+			n++
+			fr := make([]Frame, len(sh))
+			for i, k := range sh {
+				fr[i] = Frame{K: k, T: texts[markerFree[(n+i)%len(markerFree)]], O: n % len(objects)}
+				if k == "E" {
+					fr[i].T = ""
+				} else {
+					fr[i].O = 0
+				}
+				if k == "G" {
+					fr[i].T = glueTexts[n%4]
+				}
+			}
+			emit(l, fr)
+		}
+	}
+	// 3. wrapping trees: every class x every tree shape x every kind of layer with several operands (the
+	// class as one operand, the other operands bring no class and no status error)
+	ntree := 0
+	for ci := range classes {
+		for _, sh := range treeShapes {
+			for _, v := range multiVariants {
+				n++
+				ntree++
+				emit(Leaf{K: "S", C: ci}, treeFrames(sh, v, n))
+			}
+		}
+	}
+	// 3b. the other leaves (status errors of all codes, a class-less error, Is-method leaves) under the
+	// same layers, and layers with a status error as a side operand under every leaf
+	var others []Leaf
+	for _, l := range all {
+		if l.K != "S" && !(l.K == "G" && l.C == 0) {
+			others = append(others, l)
+		}
+	}
+	others = append(others, isLeaves()...)
+	for _, l := range others {
+		for si, sh := range [][]string{{"X"}, {"W", "X"}} {
+			for vi, v := range multiVariants {
+				if (si+vi)%2 == 1 && !thorough {
+					continue
+				}
+				n++
+				ntree++
+				lf := l
+				if lf.K == "P" || lf.K == "G" {
+					lf.T = texts[markerFree[n%len(markerFree)]]
+				}
+				emit(lf, treeFrames(sh, v, n))
+			}
+		}
+	}
+	for _, l := range append(append([]Leaf(nil), all...), isLeaves()...) {
+		if l.K == "G" && l.C == 0 {
+			continue
+		}
+		for _, sh := range [][]string{{"X"}, {"W", "X"}} {
+			for _, v := range statusVariants {
+				n++
+				ntree++
+				lf := l
+				if lf.K == "P" || lf.K == "G" {
+					lf.T = texts[markerFree[n%len(markerFree)]]
+				}
+				emit(lf, treeFrames(sh, v, n))
+			}
+		}
+	}
+	s.Extra["tree_cases"] = ntree
+	// 4. long texts and long objects: 3 KB, 4 KB +- 16, 8 KB, 64 KB (256 KB and 1 MB in the thorough tier) in
+	// front of the embedding, behind it, as the object itself, at several depths; classes rotate
+	nlong := 0
+	sizes := longSizes
+	if thorough {
+		sizes = append(append([]int(nil), longSizes...), hugeSizes...)
+	}
+	for _, size := range sizes {
+		for si, sh := range longShapes {
+			reps := 3
+			if size >= 262144 {
+				reps = 1
+				if si%3 != 0 {
+					continue
+				}
+			}
+			for k := 0; k < reps; k++ {
+				n++
+				nlong++
+				emit(Leaf{K: "S", C: (n*5 + k) % len(classes)}, longFrames(sh, size, n))
+			}
+		}
+		// a long leaf message under an embedding, for a class-less and a status leaf
+		n++
+		nlong += 2
+		emit(Leaf{K: "P", T: "leaf ", N: size}, []Frame{{K: "W", T: "ctx"}, {K: "E", O: n % 2}})
+		emit(Leaf{K: "G", C: 1 + n%16, T: "leaf ", N: size}, []Frame{{K: "E", O: n % 2}, {K: "W", T: "ctx"}})
+	}
+	s.Extra["long_cases"] = nlong
+	// 5. very deep chains (a bound on the number of Unwrap steps would show here) and very wide layers
+	ndeep := 0
+	depths := []int{12, 17, 33, 65, 129, 300, 1000}
+	if thorough {
+		depths = append(depths, 4000)
+	}
+	for di, d := range depths {
+		for k := 0; k < 3; k++ {
+			n++
+			ndeep++
+			fr := make([]Frame, d)
+			for i := range fr {
+				fr[i] = Frame{K: "W", T: texts[markerFree[(i%3)*2%len(markerFree)]]} // "ctx", "a: b", "\x1b"
+			}
+			switch k {
+			case 1:
+				fr[0] = Frame{K: "E", O: n % 2} // the embedding outermost
+			case 2:
+				fr[d-1] = Frame{K: "E", O: n % 2} // innermost
+				fr[d/2] = multiVariants[(di%2)*7].frame()
+			}
+			emit(Leaf{K: "S", C: (n * 5) % len(classes)}, fr)
+		}
+	}
+	for _, width := range []int{16, 64, 256} {
+		for pos := 0; pos < 3; pos++ {
+			for _, kind := range []string{"J", "M"} {
+				n++
+				ndeep++
+				f := Frame{K: kind}
+				hole := []int{0, width / 2, width}[pos]
+				for i := 0; i <= width; i++ {
+					op := Op{K: "eof"}
+					if i == hole {
+						op.K = "H"
+					} else if i%5 == 1 {
+						op = Op{K: "new", T: "first"}
+					}
+					if kind == "M" && i < width {
+						op.A = betweenTexts[i%len(betweenTexts)]
+					}
+					f.Ops = append(f.Ops, op)
+				}
+				emit(Leaf{K: "S", C: (n * 5) % len(classes)}, []Frame{{K: "W", T: "ctx"}, f, {K: "E", O: n % 2}})
+			}
+		}
+	}
+	s.Extra["deep_wide_cases"] = ndeep
 	s.Extra["exhaustive_cases"] = n
 	// 2. seeded: mixed texts, deeper chains, second embeds (EmbedObject must panic), embeds over marker texts
 	nrand := 2400
@@ -600,9 +840,25 @@ func main() {
 		if d > 1 && g.Chance(1, 8) {
 			pe2 = g.Intn(d)
 		}
+		withStatus := g.Chance(1, 25) // a status error as a side operand: only then
+		padAt, padN := -1, 0
+		if d > 0 && g.Chance(1, 30) {
+			padAt = g.Intn(d)
+			padN = prng.Pick(g, longSizes[:8])
+			if g.Bool() {
+				padN = g.Range(2000, 9000)
+			}
+		}
 		for j := range fr {
 			if j == pe || j == pe2 {
 				fr[j] = Frame{K: "E", O: g.Intn(len(objects))}
+				if j == padAt {
+					fr[j].N = padN
+				}
+			} else if g.Chance(1, 5) {
+				fr[j] = randMulti(g, withStatus)
+			} else if j == padAt {
+				fr[j] = Frame{K: "W", T: "long ", N: padN}
 			} else if g.Chance(1, 7) {
 				fr[j] = Frame{K: "G", T: prng.Pick(g, glueTexts)}
 			} else if g.Chance(3, 4) {
@@ -616,7 +872,12 @@ func main() {
 	s.Close(fmt.Sprintf("exhaustive: 30 leaves (12 sentinels, status errors of all 17 codes, a class-less error) x all shapes of depth 0..%d "+
 		"(embed nowhere or at one position) x %d texts (the same text in every wrap; leaf messages rotate through the alphabet), and all ordered "+
 		"pairs of texts at depth 2, and the separator-less wrap fmt.Errorf(\"%%s%%w\") with 6 texts (trailing '%%', a marker) in 6 shapes around an embed; "+
-		"seeded: %d chains with mixed texts, depths up to %d, second embeds and embeds over texts that contain markers. Each case observes Is "+
+		"wrapping trees: every class x 11 tree shapes x 14 layers with several operands (fmt.Errorf with several %%w incl. nil operands, errors.Join, "+
+		"custom Unwrap types; side operands io.EOF, errors.New, context.Canceled, wrapped and joined ones, the same class again - never a second class), "+
+		"the other leaves and Is-method leaves under the same layers, status errors as side operands; long texts and objects (3000, 4080..4112, 8192, "+
+		"65536 bytes; 262144 and 1048576 in the thorough tier) in front of / behind / as the embedded object at several depths; chains of depth up to 1000 "+
+		"(4000 thorough) and layers of up to 257 operands; "+
+		"seeded: %d chains and trees with mixed texts, depths up to %d, second embeds and embeds over texts that contain markers. Each case observes Is "+
 		"for all 12 classes, GRPCStatusCode, FromGRPCError and ExtractObject on e, GRPCWrap(e), the transported GRPCWrap(e) and the "+
 		"transported e; by default only the observables the property names decide (class after GRPCWrap and after transport, idempotence, "+
 		"object still extractable, non-OK codes never nil), with --exact every observable must equal the model's. distinct = by content hash; non-trivial = non-empty wrapping context", maxd, len(texts), nrand, maxd+3), true)
